@@ -129,7 +129,19 @@ type fn struct {
 type site struct {
 	pkg, fn, sink, kind, arg string
 	lbl                      labels
+	pos                      token.Pos
 }
+
+// A closure bound to a variable is analysed where it is defined AND again at every call of the variable,
+// with the environment of that call (captured variables may hold a secret by then).  The sites and
+// events of the body exist once: a repeated analysis joins its labels into them (by source position).
+var (
+	reanalysing int
+	sitePos     = map[token.Pos]int{}
+	eventPos    = map[token.Pos]int{}
+	inClosure   = map[*fn]bool{}
+	litOf       = map[*fn]*ast.FuncLit{}
+)
 
 type source struct {
 	id, fn, call, url string
@@ -563,6 +575,16 @@ func (a *analysis) eval(e ast.Expr) labels {
 }
 
 // closure analyses a function literal in the current environment.
+func unparen(e ast.Expr) ast.Expr {
+	for {
+		p, ok := e.(*ast.ParenExpr)
+		if !ok {
+			return e
+		}
+		e = p.X
+	}
+}
+
 func (a *analysis) closure(lit *ast.FuncLit) *fn {
 	c := fnByLit[lit]
 	if c == nil {
@@ -799,10 +821,10 @@ func (a *analysis) evalCall(c *ast.CallExpr) []labels {
 		for _, sa := range sargs {
 			l.add(a.eval(sa))
 		}
-		a.record(sink, kind, sargs, l)
+		a.record(sink, kind, sargs, l, c.Pos())
 	}
 
-	if recording && !symbolic && (inputAPIs[full] || isFlagDef(full)) {
+	if recording && !symbolic && reanalysing == 0 && (inputAPIs[full] || isFlagDef(full)) {
 		lit := ""
 		for _, arg := range c.Args {
 			if bl, ok := arg.(*ast.BasicLit); ok && bl.Kind == token.STRING {
@@ -914,6 +936,18 @@ func (a *analysis) evalCall(c *ast.CallExpr) []labels {
 			}
 		}
 	}
+	// a call of a variable bound to a function literal: the body again, with the environment of this call
+	if id, ok := unparen(c.Fun).(*ast.Ident); ok && recording && !symbolic {
+		if v, ok := objOf(id).(*types.Var); ok {
+			if t := litVar[v]; t != nil && litOf[t] != nil && !inClosure[t] {
+				inClosure[t] = true
+				reanalysing++
+				a.closure(litOf[t])
+				reanalysing--
+				inClosure[t] = false
+			}
+		}
+	}
 	// module functions, closures, function-typed parameters, interface methods
 	if len(ts) > 0 {
 		var res []labels
@@ -996,12 +1030,19 @@ func (a *analysis) resultsAt(t *fn, argL []labels) []labels {
 }
 
 func (a *analysis) transmit(full string, c *ast.CallExpr, l labels) {
+	if recording && !symbolic && reanalysing > 0 {
+		if j, ok := eventPos[c.Pos()]; ok {
+			events[j].lbl = union(events[j].lbl, concreteKeepProv(resolve(l)))
+			return
+		}
+	}
 	if recording && !symbolic {
+		eventPos[c.Pos()] = len(events)
 		events = append(events, event{fn: a.f.key, what: alphaText(a, c), lbl: concreteKeepProv(resolve(l))})
 	}
 }
 
-func (a *analysis) record(sink, kind string, args []ast.Expr, l labels) {
+func (a *analysis) record(sink, kind string, args []ast.Expr, l labels, pos token.Pos) {
 	var parts []string
 	for _, arg := range args {
 		parts = append(parts, alphaText(a, arg))
@@ -1012,8 +1053,19 @@ func (a *analysis) record(sink, kind string, args []ast.Expr, l labels) {
 		// which are accounted for at every call of the wrapper
 		l = lab("wrapper")
 	}
-	sites = append(sites, site{pkg: a.f.pkg, fn: a.f.key, sink: sink, kind: kind, arg: strings.Join(parts, ", "), lbl: l})
+	if reanalysing > 0 {
+		if i, ok := sitePos[pos]; ok {
+			sites[i].lbl = union(sites[i].lbl, l)
+			if j, ok := eventPos[pos]; ok {
+				events[j].lbl = union(events[j].lbl, l)
+			}
+			return
+		}
+	}
+	sites = append(sites, site{pkg: a.f.pkg, fn: a.f.key, sink: sink, kind: kind, arg: strings.Join(parts, ", "), lbl: l, pos: pos})
+	sitePos[pos] = len(sites) - 1
 	events = append(events, event{fn: a.f.key, what: sink + "(" + strings.Join(parts, ", ") + ")", sink: true, siteIdx: len(sites) - 1, lbl: l})
+	eventPos[pos] = len(events) - 1
 }
 
 // secretOnly: what of a taint matters for the identity of a site — raw and masked secrets with the
@@ -1488,6 +1540,7 @@ func mkLit(top, parent *fn, lit *ast.FuncLit, name string, counter *int) {
 	c := &fn{key: parent.key + "$" + name, pkg: top.pkg, body: lit.Body, nres: nres(lit.Type), top: top, parent: parent,
 		params: paramVars(lit.Type)}
 	fnByLit[lit] = c
+	litOf[c] = lit
 	fnByKey[c.key] = c
 	registerLits(top, c, lit.Body, counter)
 }
@@ -1708,6 +1761,8 @@ func main() {
 	sites = nil
 	events = nil
 	inputs = nil
+	sitePos = map[token.Pos]int{}
+	eventPos = map[token.Pos]int{}
 	for _, f := range order {
 		analyseBoth(f)
 	}
